@@ -41,24 +41,8 @@ META = {
 
 # Disagreements between ripgrep and the property that are reported to the maintainer of /verif and await a
 # decision (repair ripgrep or record a known finding).  A violation whose sig matches is printed as KNOWN-FINDING.
-PENDING_FINDINGS = [
-    {"match": {"name_ends_with_dot": True},
-     "what": "globset pathutil::file_name returns None for a path ending in '.', so gitignore patterns that are "
-             "compiled to the basename-literal / extension strategies (e.g. `d.`, `*.`) do not match a file or "
-             "directory whose name ends in '.' (git ignores `d.`, rg lists it; every wrongly listed/hidden path has a "
-             "component ending in '.')"},
-    {"match": {"bare_negation_line": True, "direction": "lists_ignored", "name_ends_with_dot": False},
-     "what": "a line consisting of `!` alone is an empty pattern that matches nothing for git, but "
-             "GitignoreBuilder::add_line turns it into the whitelist glob `**/`, which re-includes every path "
-             "(`*` + `!`: git ignores everything, rg lists everything)"},
-    {"match": {"escaped_blank_then_trailing_blank": True, "direction": "lists_ignored", "name_ends_with_dot": False},
-     "what": "an escaped blank followed by unescaped trailing blanks (`a\\ ` + ` `): git drops only the unescaped "
-             "blanks and ignores the file `a `; add_line's trim_right drops the escaped blank too, leaving the invalid "
-             "glob `a\\` (error: dangling '\\'), so rg lists `a `"},
-    {"match": {"trailing_tab_line": True, "name_ends_with_dot": False},
-     "what": "a trailing tab is part of the pattern for git (only unescaped trailing SPACES are dropped), but add_line's "
-             "trim_right drops any trailing whitespace: for the line `b.c<TAB>` git ignores nothing, rg ignores b.c"},
-]
+# findings are recorded in /verif/known_findings.jsonl (status known / fixed); nothing is pending here
+PENDING_FINDINGS = []
 
 RG_BASE = ["--files", "--hidden", "--no-ignore-global", "--no-ignore-parent", "--no-ignore-exclude", "--no-config"]
 WALKERS = {"parallel": ["-j3"], "serial": ["-j1", "--sort", "path"]}
